@@ -1,6 +1,7 @@
 import PpciVerif.Gen.Py_bitfun
 import PpciVerif.Model.Bitfun
 import PpciVerif.Proofs.T1_PyRt
+import PpciVerif.Proofs.T1_PyMask
 import PpciVerif.Proofs.BitfunEnc
 /-!
 T1 translation tie for `ppci/utils/bitfun.py`: each definition of `Gen.Py_bitfun`
@@ -11,6 +12,7 @@ them as `Nat` (negative widths are outside the model, as before).  Loops: for
 every `fuel` above the stated bound the result is the model's, so `FuelExhausted`
 is never returned.
 -/
+set_option linter.unusedTactic false   -- `py_norm` is a no-op for the current spelling of some loops
 namespace Proofs.T1.Bitfun
 open Model Model.PyRt Model.Bitfun Gen.Py_bitfun Proofs.T1
 
@@ -145,8 +147,9 @@ theorem gen_reverse_loop : ∀ (p : Nat) (v y : Int) (fuel : Nat), p + 1 ≤ fue
     have e : ((p + 1 : Nat) : Int) - 1 = (p : Int) := by omega
     unfold reverse_bits_loop1
     rw [e, if_pos (by omega)]
-    simp only [shl_natCast, bind_ok, PyRt.shrN, Int.pow_one]
-    exact ih (v / 2) (y + PyInt.and v 1 * 2 ^ p) f (by omega)
+    simp only [shl_natCast, bind_ok, revLoop]
+    py_norm
+    exact ih (v / 2) (y + v % 2 * 2 ^ p) f (by omega)
 
 /-- fuel bound: `bits + 1` -/
 theorem gen_reverse_bits_eq_model (fuel : Nat) (v : Int) (bits : Nat) (hf : bits + 1 ≤ fuel) :
@@ -172,6 +175,7 @@ theorem gen_clz_loop (bits : Nat) (mask : Int) : ∀ (r : Nat) (v : Int) (count 
     obtain ⟨f, rfl⟩ : ∃ f, fuel = f + 1 := ⟨fuel - 1, by omega⟩
     unfold clz_loop1
     simp only [clzLoop]
+    py_norm
     by_cases hz : PyInt.and v mask = 0
     · rw [if_pos ⟨by omega, hz⟩, if_pos hz]
       have e : (count : Int) + 1 = ((count + 1 : Nat) : Int) := by omega
@@ -207,7 +211,8 @@ theorem gen_ctz_loop (bits : Nat) : ∀ (r : Nat) (v : Int) (count fuel : Nat), 
     intro v count fuel hf hc
     obtain ⟨f, rfl⟩ : ∃ f, fuel = f + 1 := ⟨fuel - 1, by omega⟩
     unfold ctz_loop1
-    simp only [ctzLoop, fmod_pos v (show (0 : Int) < 2 by decide), fdiv_pos v (show (0 : Int) < 2 by decide)]
+    simp only [ctzLoop]
+    py_norm
     by_cases hz : v % 2 = 0
     · rw [if_pos ⟨by omega, hz⟩, if_pos hz]
       have e : (count : Int) + 1 = ((count + 1 : Nat) : Int) := by omega
